@@ -56,6 +56,12 @@ def unwrap(n):
         if is_copy_construct(n):
             n = [x for x in n.c if x is not None and x.k != 'defarg'][0]
             continue
+        if n.k == 'construct' and ((n.callee or {}).get('cls') or '').startswith('std::basic_string'):
+            # std::string built from one value (const char*, literal, other string): same value
+            args = [x for x in n.c if x is not None and x.k != 'defarg']
+            if len(args) == 1:
+                n = args[0]
+                continue
         break
     return n
 
